@@ -1078,3 +1078,287 @@ Definition view_cell (names : list bytes) (c : cell) : gcell bytes :=
 Definition view (L : layout) : rlib :=
   let names := map (fun c => cname (c_name c)) (l_cells L) in
   RLib (l_unit L) (map (view_prop cname) (l_props L)) (map (view_cell names) (l_cells L)).
+
+(* ================================================================== the covered part of the strict decoder
+   [cov_oas_decode] is the strict decoder of OasisSpec.v with these additional requirements (every function below is
+   its OasisSpec counterpart plus guards; OasisReadProofs.cov_refines_spec: cov_oas_decode bs = Some L ->
+   spec_oas_decode bs = Some L).  Outside them the reader provably differs from the strict decoder (see the
+   *_refuted lemmas of OasisReadProofs.v):
+     (c1) fields the reader reads as ONE byte are written in one byte: record ids, the START id, real types, repetition
+          types, point-list types, property value types, the PATH extension scheme, the CTRAPEZOID type;
+     (c2) layer / datatype / textlayer / texttype below 2^32 (the reader truncates to uint32_t);
+     (c3) counts: repetition dimensions + 2 and list counts + 1 below 2^31, point-list counts below 2^31, explicit
+          reference numbers below 2^26 (64-bit wrap-around and allocation limits of the reader);
+     (c4) the point list of a PATH is not empty (the reader reads before its array otherwise);
+     (c5) no CTRAPEZOID of type 25 (the reader leaves modal height alone, the strict decoder sets it to the width);
+     (c6) a PROPERTY follows START, CELL, an element or a CELLNAME record (after TEXTSTRING the reader copies the
+          properties onto the labels, after LAYERNAME it attaches them to the previous owner, after PROPNAME / PROPSTRING
+          it resolves their names at END although they are not part of the layout);
+     (c7) no two CELL records with the same reference number (the reader moves the CELLNAME properties to the first);
+     (c8) at END every property given with a CELLNAME record resolves, also those of names no CELL uses. *)
+Definition small1 (bs : list N) : bool := match bs with b :: _ => b <? 128 | [] => false end.
+Definition lim31 : N := 2147483648.
+Definition lim26 : N := 67108864.
+Definition rd_u32 (bs : list N) : option (N * list N) :=
+  let? '(v, r) := rd_uint bs in if v <? 4294967296 then Some (v, r) else None.
+Definition cov_real (bs : list N) : option (real * list N) := if small1 bs then rd_real bs else None.
+Definition rep_small (r : srep) : bool :=
+  match r with
+  | R_rect nx ny _ _ => (nx <? lim31) && (ny <? lim31)
+  | R_rectx n _ | R_recty n _ | R_lin n _ => n <? lim31
+  | R_xs _ l => N.of_nat (length l) <? lim31
+  | R_ys _ l => N.of_nat (length l) <? lim31
+  | R_reg n m _ _ => (n <? lim31) && (m <? lim31)
+  | R_exp _ l => N.of_nat (length l) <? lim31
+  end.
+Definition cov_rep (mr : option srep) (bs : list N) : option (srep * list N) :=
+  if small1 bs then
+    let? '(r, rest) := rd_rep mr bs in
+    (* type 0 re-uses a repetition that was checked when it was read *)
+    if match bs with 0 :: _ => true | _ => rep_small r end then Some (r, rest) else None
+  else None.
+Definition cov_plist (closed : bool) (bs : list N) : option (list pt * list N) :=
+  if small1 bs then
+    let? '(pts, rest) := rd_plist closed bs in
+    if N.of_nat (length pts) <? lim31 then Some (pts, rest) else None
+  else None.
+Definition cov_rep_fld (b : bool) (mr : option srep) (bs : list N) : option (option srep * option srep * list N) :=
+  if b then let? '(r, bs1) := cov_rep mr bs in Some (Some r, Some r, bs1) else Some (None, mr, bs).
+
+Definition cov_rectangle (m : modal) (bs : list N) : option (element * modal * list N) :=
+  let g := m_g m in
+  let? '(info, bs) := rd_byte bs in
+  let? '(l, bs) := fld (bit info 0) rd_u32 (g_layer g) bs in
+  let? '(d, bs) := fld (bit info 1) rd_u32 (g_dtype g) bs in
+  let? '(w, bs) := fld (bit info 6) rd_uint (g_w g) bs in
+  if bit info 7 && bit info 5 then None else
+  let? '(h, bs) := (if bit info 7 then Some (w, bs) else fld (bit info 5) rd_uint (g_h g) bs) in
+  let? '(x, bs) := pos_fld (bit info 4) (m_abs m) (g_x g) bs in
+  let? '(y, bs) := pos_fld (bit info 3) (m_abs m) (g_y g) bs in
+  let? '(r, mr, bs) := cov_rep_fld (bit info 2) (m_rep m) bs in
+  Some (E_rect l d w h x y r,
+        set_g m (mkG (Some l) (Some d) x y (Some w) (Some h) (g_poly g) (g_path g) (g_hw g) (g_exs g) (g_exe g)
+                     (g_ctype g) (g_rad g)) mr, bs).
+
+Definition cov_polygon (m : modal) (bs : list N) : option (element * modal * list N) :=
+  let g := m_g m in
+  let? '(info, bs) := rd_byte bs in
+  if bit info 7 || bit info 6 then None else
+  let? '(l, bs) := fld (bit info 0) rd_u32 (g_layer g) bs in
+  let? '(d, bs) := fld (bit info 1) rd_u32 (g_dtype g) bs in
+  let? '(pts, bs) := fld (bit info 5) (cov_plist true) (g_poly g) bs in
+  let? '(x, bs) := pos_fld (bit info 4) (m_abs m) (g_x g) bs in
+  let? '(y, bs) := pos_fld (bit info 3) (m_abs m) (g_y g) bs in
+  let? '(r, mr, bs) := cov_rep_fld (bit info 2) (m_rep m) bs in
+  Some (E_poly l d pts x y r,
+        set_g m (mkG (Some l) (Some d) x y (g_w g) (g_h g) (Some pts) (g_path g) (g_hw g) (g_exs g) (g_exe g)
+                     (g_ctype g) (g_rad g)) mr, bs).
+
+Definition cov_path (m : modal) (bs : list N) : option (element * modal * list N) :=
+  let g := m_g m in
+  let? '(info, bs) := rd_byte bs in
+  let? '(l, bs) := fld (bit info 0) rd_u32 (g_layer g) bs in
+  let? '(d, bs) := fld (bit info 1) rd_u32 (g_dtype g) bs in
+  let? '(hw, bs) := fld (bit info 6) rd_uint (g_hw g) bs in
+  let? '(es, ee, bs) :=
+    (if bit info 7 then
+       let? '(sch, bs) := rd_byte bs in
+       if 16 <=? sch then None else
+       let? '(es, bs) := ext_fld (N.land (N.shiftr sch 2) 3) hw (g_exs g) bs in
+       let? '(ee, bs) := ext_fld (N.land sch 3) hw (g_exe g) bs in
+       Some (es, ee, bs)
+     else match g_exs g, g_exe g with Some a, Some b => Some (a, b, bs) | _, _ => None end) in
+  let? '(pts, bs) := fld (bit info 5) (cov_plist false) (g_path g) bs in
+  if negb (nonempty pts) then None else
+  let? '(x, bs) := pos_fld (bit info 4) (m_abs m) (g_x g) bs in
+  let? '(y, bs) := pos_fld (bit info 3) (m_abs m) (g_y g) bs in
+  let? '(r, mr, bs) := cov_rep_fld (bit info 2) (m_rep m) bs in
+  Some (E_path l d hw es ee pts x y r,
+        set_g m (mkG (Some l) (Some d) x y (g_w g) (g_h g) (g_poly g) (Some pts) (Some hw) (Some es) (Some ee)
+                     (g_ctype g) (g_rad g)) mr, bs).
+
+Definition cov_trapezoid (code : N) (m : modal) (bs : list N) : option (element * modal * list N) :=
+  let g := m_g m in
+  let? '(info, bs) := rd_byte bs in
+  let? '(l, bs) := fld (bit info 0) rd_u32 (g_layer g) bs in
+  let? '(d, bs) := fld (bit info 1) rd_u32 (g_dtype g) bs in
+  let? '(w, bs) := fld (bit info 6) rd_uint (g_w g) bs in
+  let? '(h, bs) := fld (bit info 5) rd_uint (g_h g) bs in
+  let? '(da, bs) := (if code =? 25 then Some (0%Z, bs) else rd_int bs) in
+  let? '(db, bs) := (if code =? 24 then Some (0%Z, bs) else rd_int bs) in
+  let? '(x, bs) := pos_fld (bit info 4) (m_abs m) (g_x g) bs in
+  let? '(y, bs) := pos_fld (bit info 3) (m_abs m) (g_y g) bs in
+  let? '(r, mr, bs) := cov_rep_fld (bit info 2) (m_rep m) bs in
+  Some (E_trap (bit info 7) l d w h da db x y r,
+        set_g m (mkG (Some l) (Some d) x y (Some w) (Some h) (g_poly g) (g_path g) (g_hw g) (g_exs g) (g_exe g)
+                     (g_ctype g) (g_rad g)) mr, bs).
+
+(* [any25] = true lifts (c5): used by the per-record lemma that covers the element of a type-25 record *)
+Definition cov_ctrapezoid_gen (any25 : bool) (m : modal) (bs : list N) : option (element * modal * list N) :=
+  let g := m_g m in
+  let? '(info, bs) := rd_byte bs in
+  let? '(l, bs) := fld (bit info 0) rd_u32 (g_layer g) bs in
+  let? '(d, bs) := fld (bit info 1) rd_u32 (g_dtype g) bs in
+  let? '(ty, bs) := fld (bit info 7) rd_byte (g_ctype g) bs in
+  if (26 <=? ty) || (negb any25 && (ty =? 25)) then None else
+  let? '(w0, bs) := dim_fld (bit info 6) (ctrap_uses_w ty) (g_w g) bs in
+  let? '(h0, bs) := dim_fld (bit info 5) (ctrap_uses_h ty) (g_h g) bs in
+  let w := ctrap_w ty w0 h0 in let h := ctrap_h ty w0 h0 in
+  let? '(x, bs) := pos_fld (bit info 4) (m_abs m) (g_x g) bs in
+  let? '(y, bs) := pos_fld (bit info 3) (m_abs m) (g_y g) bs in
+  let? '(r, mr, bs) := cov_rep_fld (bit info 2) (m_rep m) bs in
+  Some (E_ctrap l d ty w h x y r,
+        set_g m (mkG (Some l) (Some d) x y (Some w) (Some h) (g_poly g) (g_path g)
+                     (g_hw g) (g_exs g) (g_exe g) (Some ty) (g_rad g)) mr, bs).
+Definition cov_ctrapezoid := cov_ctrapezoid_gen false.
+
+Definition cov_circle (m : modal) (bs : list N) : option (element * modal * list N) :=
+  let g := m_g m in
+  let? '(info, bs) := rd_byte bs in
+  if bit info 7 || bit info 6 then None else
+  let? '(l, bs) := fld (bit info 0) rd_u32 (g_layer g) bs in
+  let? '(d, bs) := fld (bit info 1) rd_u32 (g_dtype g) bs in
+  let? '(rad, bs) := fld (bit info 5) rd_uint (g_rad g) bs in
+  let? '(x, bs) := pos_fld (bit info 4) (m_abs m) (g_x g) bs in
+  let? '(y, bs) := pos_fld (bit info 3) (m_abs m) (g_y g) bs in
+  let? '(r, mr, bs) := cov_rep_fld (bit info 2) (m_rep m) bs in
+  Some (E_circle l d rad x y r,
+        set_g m (mkG (Some l) (Some d) x y (g_w g) (g_h g) (g_poly g) (g_path g) (g_hw g) (g_exs g) (g_exe g)
+                     (g_ctype g) (Some rad)) mr, bs).
+
+Definition cov_text (m : modal) (bs : list N) : option (element * modal * list N) :=
+  let t := m_t m in
+  let? '(info, bs) := rd_byte bs in
+  if bit info 7 then None else
+  let? '(s, bs) := fld (bit info 6) (rd_nref (bit info 5)) (t_str t) bs in
+  let? '(l, bs) := fld (bit info 0) rd_u32 (t_layer t) bs in
+  let? '(ty, bs) := fld (bit info 1) rd_u32 (t_type t) bs in
+  let? '(x, bs) := pos_fld (bit info 4) (m_abs m) (t_x t) bs in
+  let? '(y, bs) := pos_fld (bit info 3) (m_abs m) (t_y t) bs in
+  let? '(r, mr, bs) := cov_rep_fld (bit info 2) (m_rep m) bs in
+  Some (E_text s l ty x y r,
+        mkM (m_abs m) mr (m_g m) (mkT (Some s) (Some l) (Some ty) x y) (m_p m) (m_pname m) (m_pvals m), bs).
+
+Definition cov_placement (code : N) (m : modal) (bs : list N) : option (element * modal * list N) :=
+  let p := m_p m in
+  let? '(info, bs) := rd_byte bs in
+  let? '(c, bs) := fld (bit info 7) (rd_nref (bit info 6)) (p_cell p) bs in
+  let? '(tr, bs) :=
+    (if code =? 17 then Some (PT_quarter (N.land (N.shiftr info 1) 3), bs)
+     else
+       let? '(mag, bs) := (if bit info 2 then let? '(v, r) := cov_real bs in Some (Some v, r) else Some (None, bs)) in
+       let? '(ang, bs) := (if bit info 1 then let? '(v, r) := cov_real bs in Some (Some v, r) else Some (None, bs)) in
+       Some (PT_general mag ang, bs)) in
+  let? '(x, bs) := pos_fld (bit info 5) (m_abs m) (p_x p) bs in
+  let? '(y, bs) := pos_fld (bit info 4) (m_abs m) (p_y p) bs in
+  let? '(r, mr, bs) := cov_rep_fld (bit info 3) (m_rep m) bs in
+  Some (E_place c tr (bit info 0) x y r,
+        mkM (m_abs m) mr (m_g m) (m_t m) (mkP (Some c) x y) (m_pname m) (m_pvals m), bs).
+
+Definition cov_pval (bs : list N) : option (pval * list N) := if small1 bs then rd_pval bs else None.
+Definition cov_property (code : N) (m : modal) (bs : list N) : option (prop * modal * list N) :=
+  if code =? 29 then
+    match m_pname m, m_pvals m with
+    | Some (n, s), Some vs => Some (mkProp n s vs, m, bs)
+    | _, _ => None
+    end
+  else
+    let? '(info, bs) := rd_byte bs in
+    let? '(nm, bs) :=
+      (if bit info 2 then let? '(n, r) := rd_nref (bit info 1) bs in Some ((n, bit info 0), r)
+       else match m_pname m with Some v => Some (v, bs) | None => None end) in
+    let? '(vs, bs) :=
+      (if bit info 3 then
+         if 0 <? N.shiftr info 4 then None
+         else match m_pvals m with Some v => Some (v, bs) | None => None end
+       else
+         let u := N.shiftr info 4 in
+         let? '(cnt, bs) := (if u =? 15 then rd_uint bs else Some (u, bs)) in
+         rd_count cov_pval cnt bs) in
+    Some (mkProp (fst nm) (snd nm) vs,
+          mkM (m_abs m) (m_rep m) (m_g m) (m_t m) (m_p m) (Some nm) (Some vs), bs).
+
+(* (c6) *)
+Definition cov_add_prop (d : dstate) (p : prop) (m : modal) : option dstate :=
+  match d_target d with T_other => None | _ => add_prop d p m end.
+(* explicit reference numbers: (c3) *)
+Definition cov_add_name (d : dstate) (which : N) (explicit : bool) (bs : list N) : option (dstate * list N) :=
+  let? '(d1, bs1) := add_name d which explicit bs in
+  if explicit then
+    match rd_string bs with
+    | Some (_, r) => match rd_uint r with
+                     | Some (k, _) => if k <? lim26 then Some (d1, bs1) else None
+                     | None => None
+                     end
+    | None => None
+    end
+  else Some (d1, bs1).
+(* (c8) *)
+Definition cov_finalize (d : dstate) : option layout :=
+  let? _ := omap (resolve_prop (d_propnames d) (d_propstrings d)) (map snd (d_cn_props d)) in
+  finalize d.
+Definition cell_has_num (n : N) (c : cell) : bool := match c_name c with NNum k => k =? n | NName _ => false end.
+
+Definition cov_elem_step (d : dstate) (r : option (element * modal * list N)) : option step_result :=
+  let? '(e, m, bs) := r in let? d' := add_elem d e m in Some (Cont d' bs).
+Definition cov_record (offsets_in_start : bool) (d : dstate) (bs : list N) : option step_result :=
+  let m := d_modal d in
+  let? '(id, bs) := rd_byte bs in
+  match id with
+  | 0 => Some (Cont d bs)
+  | 2 => if end_ok offsets_in_start bs then let? l := cov_finalize d in Some (Done l) else None
+  | 3 => let? '(d', bs) := cov_add_name d 0 false bs in Some (Cont d' bs)
+  | 4 => let? '(d', bs) := cov_add_name d 0 true bs in Some (Cont d' bs)
+  | 5 => let? '(d', bs) := cov_add_name d 1 false bs in Some (Cont d' bs)
+  | 6 => let? '(d', bs) := cov_add_name d 1 true bs in Some (Cont d' bs)
+  | 7 => let? '(d', bs) := cov_add_name d 2 false bs in Some (Cont d' bs)
+  | 8 => let? '(d', bs) := cov_add_name d 2 true bs in Some (Cont d' bs)
+  | 9 => let? '(d', bs) := cov_add_name d 3 false bs in Some (Cont d' bs)
+  | 10 => let? '(d', bs) := cov_add_name d 3 true bs in Some (Cont d' bs)
+  | 11 | 12 =>
+      let? '(_, bs) := rd_string bs in let? bs := skip_interval bs in let? bs := skip_interval bs in
+      Some (Cont (upd_modal d m T_other) bs)
+  | 13 => let? '(n, bs) := rd_uint bs in
+          if existsb (cell_has_num n) (d_cells d) then None else                            (* (c7) *)
+          Some (Cont (upd_cells d (modal_at_cell m) (mkCell (NNum n) [] [] :: d_cells d) T_cell) bs)
+  | 14 => let? '(s, bs) := rd_string bs in
+          Some (Cont (upd_cells d (modal_at_cell m) (mkCell (NName s) [] [] :: d_cells d) T_cell) bs)
+  | 15 => Some (Cont (upd_modal d (mkM true (m_rep m) (m_g m) (m_t m) (m_p m) (m_pname m) (m_pvals m)) (d_target d)) bs)
+  | 16 => Some (Cont (upd_modal d (mkM false (m_rep m) (m_g m) (m_t m) (m_p m) (m_pname m) (m_pvals m)) (d_target d)) bs)
+  | 17 | 18 => cov_elem_step d (cov_placement id m bs)
+  | 19 => cov_elem_step d (cov_text m bs)
+  | 20 => cov_elem_step d (cov_rectangle m bs)
+  | 21 => cov_elem_step d (cov_polygon m bs)
+  | 22 => cov_elem_step d (cov_path m bs)
+  | 23 | 24 | 25 => cov_elem_step d (cov_trapezoid id m bs)
+  | 26 => cov_elem_step d (cov_ctrapezoid m bs)
+  | 27 => cov_elem_step d (cov_circle m bs)
+  | 28 | 29 => let? '(p, m', bs) := cov_property id m bs in let? d' := cov_add_prop d p m' in Some (Cont d' bs)
+  | _ => None
+  end.
+
+Fixpoint cov_loop (fuel : nat) (ois : bool) (d : dstate) (bs : list N) : option layout :=
+  match fuel with
+  | O => None
+  | S f =>
+      match cov_record ois d bs with
+      | None => None
+      | Some (Done l) => Some l
+      | Some (Cont d' bs') => cov_loop f ois d' bs'
+      end
+  end.
+
+Definition cov_oas_decode (bs : list N) : option layout :=
+  let? bs := strip_prefix magic bs in
+  let? '(id, bs) := rd_byte bs in
+  if negb (id =? 1) then None else
+  let? '(v, bs) := rd_string bs in
+  let? _ := strip_prefix version_1_0 v in
+  if negb (length v =? 3)%nat then None else
+  let? '(u, bs) := cov_real bs in
+  let? '(flag, bs) := rd_uint bs in
+  if 1 <? flag then None else
+  let? '(_, bs) := (if flag =? 0 then rd_count rd_uint 12 bs else Some ([], bs)) in
+  cov_loop (S (length bs)) (flag =? 0) (d_init u) bs.
+
+Definition covered (bs : list N) : Prop := cov_oas_decode bs <> None.
